@@ -296,10 +296,25 @@ def mec_of(out):
     if p <= 5:
         return [dag_from_code3(p, c) for c in class_table(p)[signature(out)]]
     sig = signature(out)
-    und = [0] * p
-    for i in range(p):
-        und[i] = out[i] | transpose(out)[i]
-    return [g for g in extensions(und) if signature(g) == sig]
+    return [g for g in acyclic_orientations(out) if signature(g) == sig]
+
+
+def acyclic_orientations(out):
+    """All acyclic orientations of the skeleton of ``out``."""
+    p = len(out)
+    inn = transpose(out)
+    edges = [(i, j) for (i, j) in pairs(p) if ((out[i] | inn[i]) >> j) & 1]
+    res = []
+    for choice in range(1 << len(edges)):
+        g = [0] * p
+        for k, (i, j) in enumerate(edges):
+            if (choice >> k) & 1:
+                g[j] |= 1 << i
+            else:
+                g[i] |= 1 << j
+        if not has_cycle(g):
+            res.append(g)
+    return res
 
 
 def directed_part_acyclic(out):
